@@ -73,11 +73,24 @@ def run(ctx):
             finding('C07.a', 'R-AGREE', sv if not enc else gt, 'codec pair of %s' % c.name,
                     'save and fetch of %s do not use the encode / decode pair (encode calls %d, decode calls %d)' % (c.name, len(enc), len(dec)))
         for e in enc:
-            kw = [k for k in e.keywords if k.arg == 'unpicklable']
-            okf = not kw or (isinstance(kw[0].value, ast.Constant) and kw[0].value.value is True)
+            kw = [k for k in e.keywords if not (k.arg == 'unpicklable' and isinstance(k.value, ast.Constant) and k.value.value is True)]
+            okf = not kw
             ca.instance('%s: %s keeps type information' % (c.name, norm(e)[:60]), '%s:%d' % (sv.file, e.lineno), okf)
             if not okf:
-                finding('C07.a', 'R-AGREE', sv, norm(e), 'encode(unpicklable=%s): the stored text cannot be decoded back to equal values' % norm(kw[0].value), e.lineno)
+                finding('C07.a', 'R-AGREE', sv, norm(e), 'encode(%s): the stored text cannot be decoded back to equal values' % ', '.join('%s=%s' % (k.arg, norm(k.value)) for k in kw), e.lineno)
+    pc = None
+    for m_ in repo.modules.values():
+        if 'pickle_copy' in m_.functions:
+            pc = m_.functions['pickle_copy']
+    if pc is not None:
+        from . import c01
+        okpc, whypc = c01.is_decode_encode(pc)
+        lossy_pc = [k for n in ast.walk(pc.node) if isinstance(n, ast.Call) and isinstance(n.func, ast.Name) and n.func.id == 'encode'
+                    for k in n.keywords if not (k.arg == 'unpicklable' and isinstance(k.value, ast.Constant) and k.value.value is True)]
+        ca.instance('read-path copier pickle_copy is decode(encode(value)) without fidelity-reducing options', pc.qualname, okpc and not lossy_pc, detail=whypc)
+        if not okpc or lossy_pc:
+            finding('C07.a', 'R-AGREE', pc, 'pickle_copy codec', 'data read from a fetched recording passes through a lossy copy (%s): equal data is not returned for values '
+                    'with shared sub-objects / typed members' % (', '.join('%s=%s' % (k.arg, norm(k.value)) for k in lossy_pc) or whypc))
     # S3: compress after encode, decompress before decode; metadata object decoded by the same codec
     sv, gt = F(s3, '_save_recording'), F(s3, 'get_recording')
     le, lc = first_line(sv, 'encode'), first_line(sv, 'compress')
@@ -150,6 +163,26 @@ def run(ctx):
     cb.instance('in-memory: save and fetch use the same store %s' % sorted(st_s), mem.name, ok)
     if not ok:
         finding('C07.b', 'R-AGREE', F(mem, 'get_recording'), 'in-memory store', 'save stores into %s, fetch reads %s' % (sorted(st_s), sorted(st_g)))
+
+    pf = fil.lookup(sorted(ps)[0]) if ps else None
+    if pf is not None:
+        lossy = [n for n in ast.walk(pf.node) if (isinstance(n, ast.Subscript) and isinstance(n.slice, ast.Slice)) or
+                 (isinstance(n, ast.Call) and isinstance(n.func, ast.Name) and n.func.id in ('hash',)) or
+                 (isinstance(n, ast.Call) and isinstance(n.func, ast.Attribute) and n.func.attr in ('hexdigest', 'digest', 'lower', 'upper', 'casefold'))]
+        cb.instance('file cassette: path is an injective function of the id (no truncation / hashing / case folding)', pf.qualname, not lossy)
+        for n in lossy[:1]:
+            res.add(Finding('C07', 'C07.b', 'R-AGREE', pf.file, pf.qualname, n.lineno, norm(n)[:100],
+                            'the file path is a lossy function of the recording id (`%s`): two ids can share one file, so a later save overwrites an '
+                            'earlier recording and an unknown id can return someone else\'s recording' % norm(n)[:80]))
+    sv_f = F(fil, '_save_recording')
+    enc_f = calls(sv_f, 'encode')
+    opn_f = [n for n in ast.walk(sv_f.node) if isinstance(n, ast.With) and any(norm(i.context_expr.func) in ('io.open', 'open') for i in n.items if isinstance(i.context_expr, ast.Call))]
+    before = bool(enc_f) and bool(opn_f) and all(e.lineno < opn_f[0].lineno for e in enc_f)
+    ca.instance('file cassette: recording encoded before the target file is opened for writing', sv_f.qualname, before)
+    if not before:
+        res.add(Finding('C07', 'C07.a', 'R-AGREE', sv_f.file, sv_f.qualname, sv_f.node.lineno, 'encode inside the open-for-write block',
+                        'the recording is serialized after the target file was opened (truncated): a failing serialization leaves an empty file that '
+                        'every later lookup of the category trips over'))
 
     # ---------------- C07.c what is rebuilt
     for c in (mem, fil):
